@@ -154,6 +154,11 @@ func (p *vfC18Proxy) DialHost(ctx context.Context, host *HostInfo) (*DialedHost,
 
 type vfC18PushVec map[string]interface{}
 
+type vfC18Held struct {
+	nc *vfNodeConn
+	f  *vfFrame
+}
+
 // ---- response flag combinations: the prefixes a response carries when the tracing (0x02), warning (0x08) and
 // custom-payload (0x04) flags are set are part of the BODY - <tracing id><warnings><custom payload><message>
 // (native protocol v4, section 2.2) - and therefore lie inside the compressed block of a compressed frame.
@@ -265,6 +270,7 @@ func vfC18RunPush(c vfC18PushCase, emit func(vfC18PushVec)) {
 	cols2 := []vfCol{{"a", vfTVarchar}, {"b", vfTVarchar}}
 	bigSame := vfRowsBody(byte(c.Proto), "ks", "big", cols2, same, nil, false)
 	bigCounted := vfRowsBody(byte(c.Proto), "ks", "big", cols2, counted, nil, false)
+	lateCh := make(chan vfC18Held, 4)
 	var prepMu sync.Mutex
 	prepared := map[string]string{} // prepared id -> statement
 	n.Handler = func(nc *vfNodeConn, f *vfFrame, q *vfRequest) bool {
@@ -292,6 +298,10 @@ func vfC18RunPush(c vfC18PushCase, emit func(vfC18PushVec)) {
 			prepMu.Lock()
 			stmt := prepared[string(q.PreparedID)]
 			prepMu.Unlock()
+			if strings.Contains(stmt, "ks.late") { // answered by the scenario, after the caller gave up
+				lateCh <- vfC18Held{nc: nc, f: f}
+				return true
+			}
 			if fs, ok := vfC18ParseFlagSpec(stmt); ok && (fs.Kind == "rows" || fs.Kind == "void") {
 				fl, pre := fs.prefix()
 				msg := rows
@@ -564,6 +574,69 @@ func vfC18RunPush(c vfC18PushCase, emit func(vfC18PushVec)) {
 		o, d = "wrong-value", v
 	}
 	report("rows-after-events", mark, o, d)
+
+	// ---- frames nobody waits for, on the pool connection: (1) the caller of a request gives up (context cancelled)
+	// and the node answers afterwards; (2) a response for a stream that has no request at all.  Both are ordinary
+	// frames of a connection that negotiated compression: they must be read as negotiated, the connection must stay
+	// in step and open, the NEXT request on it must be answered, and nothing is re-dialled.  No timing decides
+	// anything here: every step waits for the event it depends on.
+	poolState := func() (int, bool) {
+		px.mu.Lock()
+		defer px.mu.Unlock()
+		return len(px.conns), len(px.conns) > 1 && px.conns[len(px.conns)-1].IsClosed()
+	}
+	waitForwarded := func(mark int) bool {
+		for i := 0; i < 4000; i++ {
+			if px.snapshot() > mark {
+				return true
+			}
+			time.Sleep(5 * time.Millisecond)
+		}
+		return false
+	}
+	afterUnawaited := func(stage string, mark int) {
+		nBefore, _ := poolState()
+		if !waitForwarded(mark) {
+			report(stage, mark, "error", "set-up: the node's frame never passed the proxy")
+			return
+		}
+		// the next request on the same connection
+		var v2 string
+		qerr := s.Query("SELECT v FROM ks.rows").Scan(&v2)
+		o, d := oc(qerr)
+		if qerr == nil && v2 != "forty-two" {
+			o, d = "wrong-value", v2
+		}
+		nAfter, closed := poolState()
+		if o == "value" && (nAfter != nBefore || closed) {
+			o, d = "error", fmt.Sprintf("the connection was closed and re-dialled after the frame (%d -> %d connections)", nBefore, nAfter)
+		} else if o != "value" {
+			d += fmt.Sprintf(" (%d -> %d connections)", nBefore, nAfter)
+		}
+		report(stage, mark, o, d)
+	}
+	{
+		ctx, cancel := context.WithCancel(context.Background())
+		errc := make(chan error, 1)
+		go func() { errc <- s.Query("SELECT v FROM ks.late WHERE k = ?", 1).WithContext(ctx).Exec() }()
+		select {
+		case h := <-lateCh:
+			cancel()
+			<-errc // the caller has given up
+			mark = px.snapshot()
+			h.nc.Reply(h.f, vfOpResult, rows) // the late answer
+			afterUnawaited("late-answer-after-caller-gave-up", mark)
+			mark = px.snapshot()
+			h.nc.Send(vfEncodeFrame(h.f.Version, 0, 12345, vfOpResult, rows)) // a stream nobody uses
+			afterUnawaited("answer-for-unused-stream", mark)
+		case err := <-errc:
+			cancel()
+			report("late-answer-after-caller-gave-up", px.snapshot(), "error", fmt.Sprintf("set-up: the request ended before the node saw it: %v", err))
+		case <-time.After(30 * time.Second):
+			cancel()
+			report("late-answer-after-caller-gave-up", px.snapshot(), "error", "set-up: the node never saw the request")
+		}
+	}
 }
 
 func vfC18PushCases() []vfC18PushCase {
